@@ -184,13 +184,137 @@ package scheduler
 //@   ensures err == nil
 //@   ensures hruns == old(hruns) + 1 && hlog == upd(old(hlog), old(hruns), node)
 
-// The worker goroutine: thread precondition and the ghost effect of spawning it.
-//@ fn (*Scheduler).Schedule$1(node)
-//@   props C01 C02 C03
+// ---------------------------------------------------------------------------------------------
+// Node resources and execution (ghost counters make "how often" and "in which order" expressible)
+
+//@ ghost nsetup map[*Node]int      // successful or failed resource set-ups of a node (log/stdout/stderr/script files)
+//@ ghost nexec map[*Node]int       // executions of a node's command begun
+//@ ghost execfail map[*Node]bool   // the last execution of the node returned an error
+//@ ghost dirty map[*Node]bool      // the node has executed since its resources were last torn down
+//@ ghost ntear map[*Node]int       // teardowns of a node's resources
+
+//@ fn (*Node).setup(n, logDir, requestID) (err)
+//@   props C03 C12
 //@   trusted
+//@   modifies n.data.State.StartedAt, n.data.State.Log, n.data.State.Error, n.data.Step.CmdWithArgs, n.data.Step.Stdout,
+//@            n.data.Step.Stderr, n.data.Step.Dir, n.logFile, n.logWriter, n.stdoutFile, n.stdoutWriter, n.stderrFile,
+//@            n.stderrWriter, n.scriptFile, ghost nsetup, ghost eff.env, ghost eff.fs
+//@   ensures nsetup == upd(old(nsetup), n, old(nsetup[n]) + 1)
+
+//@ fn (*Node).Execute(n, ctx) (err)
+//@   props C03 C11 C12
+//@   trusted
+//@   modifies n.data.State.Error, n.data.Step.Command, n.data.Step.Args, n.cmd, n.cancelFunc, n.outputReader, n.outputWriter,
+//@            ghost nexec, ghost execfail, ghost dirty, ghost eff.exec, ghost eff.env, ghost eff.fs
+//@   ensures nexec == upd(old(nexec), n, old(nexec[n]) + 1)
+//@   ensures execfail == upd(old(execfail), n, err != nil)
+//@   ensures dirty == upd(old(dirty), n, true)
+
+//@ fn (*Node).teardown(n) (err)
+//@   props C03 C12
+//@   trusted
+//@   modifies n.done, n.data.State.Error, ghost dirty, ghost ntear, ghost eff.fs
+//@   ensures dirty == upd(old(dirty), n, false)
+//@   ensures ntear == upd(old(ntear), n, old(ntear[n]) + 1)
+
+// dry-run gating (C03): with sc.dry none of the three touches a node, a file or a process
+//@ fn (*Scheduler).setupNode(sc, node) (err)
+//@   props C03 C12
+//@   modifies node.data.State.StartedAt, node.data.State.Log, node.data.State.Error, node.data.Step.CmdWithArgs, node.data.Step.Stdout,
+//@            node.data.Step.Stderr, node.data.Step.Dir, node.logFile, node.logWriter, node.stdoutFile, node.stdoutWriter, node.stderrFile,
+//@            node.stderrWriter, node.scriptFile, ghost nsetup, ghost eff.env, ghost eff.fs
+//@   ensures [C03 dry_no_setup] sc.dry ==> err == nil && nsetup == old(nsetup) && eff.fs == old(eff.fs) && eff.env == old(eff.env) &&
+//@        node.data.State.Error == old(node.data.State.Error)
+//@   ensures !sc.dry ==> nsetup == upd(old(nsetup), node, old(nsetup[node]) + 1)
+
+//@ fn (*Scheduler).execNode(sc, ctx, n) (err)
+//@   props C03 C12
+//@   modifies n.data.State.Error, n.data.Step.Command, n.data.Step.Args, n.cmd, n.cancelFunc, n.outputReader, n.outputWriter,
+//@            ghost nexec, ghost execfail, ghost dirty, ghost eff.exec, ghost eff.env, ghost eff.fs
+//@   ensures [C03 dry_no_exec] sc.dry ==> err == nil && nexec == old(nexec) && eff.exec == old(eff.exec) && eff.fs == old(eff.fs) &&
+//@        eff.env == old(eff.env) && dirty == old(dirty) && execfail == old(execfail)
+//@   ensures !sc.dry ==> nexec == upd(old(nexec), n, old(nexec[n]) + 1) && execfail == upd(old(execfail), n, err != nil) &&
+//@        dirty == upd(old(dirty), n, true)
+
+//@ fn (*Scheduler).teardownNode(sc, node) (err)
+//@   props C03 C12
+//@   modifies node.done, node.data.State.Error, ghost dirty, ghost ntear, ghost eff.fs
+//@   ensures [C03 dry_no_teardown] sc.dry ==> err == nil && ntear == old(ntear) && dirty == old(dirty) && eff.fs == old(eff.fs)
+//@   ensures [C12 teardown_cleans] !sc.dry ==> dirty == upd(old(dirty), node, false) && ntear == upd(old(ntear), node, old(ntear[node]) + 1)
+
+//@ fn (*Node).setErr(n, err)
+//@   props C02 C03
+//@   modifies n.data.State.Error, n.data.State.Status
+//@   ensures n.data.State.Error == err && n.data.State.Status == NodeStatusError
+
+//@ fn (*Node).incRetryCount(n)
+//@   props C03
+//@   modifies n.data.State.RetryCount
+//@   ensures n.data.State.RetryCount == old(n.data.State.RetryCount) + 1
+
+//@ fn (*Node).getRetryCount(n) (r)
+//@   props C03
+//@   ensures r == n.data.State.RetryCount
+
+//@ fn (*Node).incDoneCount(n)
+//@   props C03
+//@   modifies n.data.State.DoneCount
+//@   ensures n.data.State.DoneCount == old(n.data.State.DoneCount) + 1
+
+//@ fn (*Node).setRetriedAt(n, t)
+//@   props C03
+//@   modifies n.data.State.RetriedAt
+
+//@ fn (*Node).finish(n)
+//@   props C03
+//@   modifies n.data.State.FinishedAt
+
+//@ fn (*Scheduler).isTimeout(sc, startedAt) (r)
+//@   props C03 C05
+//@   ensures r ==> sc.timeout > 0
+
+// The worker goroutine W(node): thread precondition, the ghost effect of spawning it, and its sequential
+// contract (no stop request, no timeout configured, non-repeating step).
+//@ pred w_scope(sc *Scheduler, node *Node) = !node.data.Step.RepeatPolicy.Repeat && sc.timeout == 0 && sc.canceled != 1 && !sc.dry
+//@
+//@ fn (*Scheduler).Schedule$1(node)
+//@   props C01 C02 C03 C12
 //@   requires [flipped_before_spawn] node.data.State.Status != NodeStatusNone
+//@   requires sc != nil
+//@   modifies *
 //@   spawn modifies ghost launch
 //@   spawn ensures launch == upd(old(launch), node, old(launch[node]) + 1)
+//@   ensures [C03 at_most_one_execution] old(w_scope(sc, node)) ==>
+//@        (nexec == old(nexec) || nexec == upd(old(nexec), node, old(nexec[node]) + 1))
+//@   ensures [C03 one_setup_per_activation] old(!sc.dry) ==> nsetup == upd(old(nsetup), node, old(nsetup[node]) + 1)
+//@   ensures [C03 retry_release_is_bounded] old(w_scope(sc, node)) && node.data.State.Status == NodeStatusNone && old(node.data.State.Status) == NodeStatusRunning ==>
+//@        (node.data.Step.RetryPolicy != nil && old(node.data.State.RetryCount) < node.data.Step.RetryPolicy.Limit &&
+//@         node.data.State.RetryCount == old(node.data.State.RetryCount) + 1 && nexec[node] == old(nexec[node]) + 1 && execfail[node])
+//@   ensures [C03 retry_count_bounded] old(w_scope(sc, node)) ==>
+//@        (node.data.State.RetryCount == old(node.data.State.RetryCount) ||
+//@         (node.data.Step.RetryPolicy != nil && old(node.data.State.RetryCount) < node.data.Step.RetryPolicy.Limit &&
+//@          node.data.State.RetryCount == old(node.data.State.RetryCount) + 1 && execfail[node]))
+//@   ensures [C03 retry_count_only_on_release] old(w_scope(sc, node)) && old(node.data.State.Status) == NodeStatusRunning &&
+//@        node.data.State.RetryCount != old(node.data.State.RetryCount) ==>
+//@        (node.data.State.Status == NodeStatusNone || (node.data.State.Status == NodeStatusError && sc.lastError != nil))
+//@   ensures [C02 failed_step_labelled_failed] old(w_scope(sc, node)) && old(node.data.State.Status) == NodeStatusRunning &&
+//@        nexec[node] == old(nexec[node]) + 1 && execfail[node] ==>
+//@        (node.data.State.Status == NodeStatusError || node.data.State.Status == NodeStatusNone)
+//@   ensures [C02 failed_step_sets_run_error] old(w_scope(sc, node)) && old(node.data.State.Status) == NodeStatusRunning &&
+//@        node.data.State.Status == NodeStatusError ==> sc.lastError != nil
+//@   ensures [C02 clean_step_labelled_finished] old(w_scope(sc, node)) && old(node.data.State.Status) == NodeStatusRunning &&
+//@        nexec[node] == old(nexec[node]) + 1 && !execfail[node] ==>
+//@        (node.data.State.Status == NodeStatusSuccess || (node.data.State.Status == NodeStatusError && sc.lastError != nil))
+//@   ensures [C02 setup_failure_labelled_failed] old(w_scope(sc, node)) && nexec == old(nexec) && old(node.data.State.Status) == NodeStatusRunning ==>
+//@        (node.data.State.Status == NodeStatusError && sc.lastError != nil)
+//@   ensures [C12 torn_down_after_last_execution] old(!sc.dry) ==> !dirty[node]
+//@   loop 0 invariant sc == old(sc) && node == old(node) && w_scope(sc, node) == old(w_scope(sc, node)) && sc.dry == old(sc.dry)
+//@   loop 0 invariant old(!sc.dry) ==> nsetup == upd(old(nsetup), node, old(nsetup[node]) + 1)
+//@   loop 0 invariant [a] old(w_scope(sc, node)) ==> nexec == old(nexec)
+//@   loop 0 invariant [b] old(w_scope(sc, node)) ==> node.data.State.RetryCount == old(node.data.State.RetryCount)
+//@   loop 0 invariant [c] old(w_scope(sc, node)) ==> node.data.Step.RetryPolicy == old(node.data.Step.RetryPolicy)
+//@   loop 0 invariant [d] old(w_scope(sc, node)) ==> (setupSucceed ==> node.data.State.Status == old(node.data.State.Status))
+//@   loop 0 invariant [e] old(w_scope(sc, node)) ==> (!setupSucceed ==> node.data.State.Status == NodeStatusError && sc.lastError != nil)
 
 //@ fn (*Scheduler).Schedule(sc, ctx, g, done) (err)
 //@   props C01 C02 C03 C04 C05 C11 C15
